@@ -21,7 +21,11 @@ mod mexec;
 
 use std::io::{BufRead, Write};
 
+static CASE_STARTED_MS: std::sync::atomic::AtomicU64 = std::sync::atomic::AtomicU64::new(0);
+static T0: std::sync::OnceLock<std::time::Instant> = std::sync::OnceLock::new();
+
 fn main() {
+    let _ = T0.set(std::time::Instant::now());
     std::panic::set_hook(Box::new(|info| {
         let msg = info.to_string();
         if !msg.contains("verif: schedule aborted") && std::env::var("HARNESS_VERBOSE").is_ok() { eprintln!("{msg}"); }
@@ -34,6 +38,14 @@ fn main() {
         loop {
             std::thread::sleep(std::time::Duration::from_millis(500));
             let p = sched::PROGRESS.load(SeqCst);
+            // a single case that does not come back for 90 s, whatever it is doing (e.g. a send sleeping and retrying for ever on a queue that
+            // wrongly calls itself full), ends the process the same way: the driver re-runs it alone and reports it if it stalls again
+            let started = CASE_STARTED_MS.load(SeqCst);
+            if started != 0 && T0.get().map(|t| t.elapsed().as_millis() as u64).unwrap_or(0) > started + 90_000 {
+                println!("-9999");
+                let _ = std::io::stdout().flush();
+                std::process::exit(77);
+            }
             if p != last.0 || !sched::IN_SCHEDULE.load(SeqCst) { last = (p, std::time::Instant::now()); continue }
             if last.1.elapsed() > std::time::Duration::from_secs(20) {
                 println!("-9999");
@@ -50,6 +62,7 @@ fn main() {
         let line = line.trim();
         if line.is_empty() || line.starts_with('#') { continue }
         let case = case::Case::parse(line);
+        CASE_STARTED_MS.store(T0.get().unwrap().elapsed().as_millis() as u64 + 1, std::sync::atomic::Ordering::SeqCst);
         let trace = match case.kind.as_str() {
             "ring" => ring::run(&case),
             "fsring" => ring::run_fs(&case),
@@ -73,6 +86,7 @@ fn main() {
             other  => panic!("unknown case kind '{other}'"),
         };
         let text: Vec<String> = trace.iter().map(|v| v.to_string()).collect();
+        CASE_STARTED_MS.store(0, std::sync::atomic::Ordering::SeqCst);
         writeln!(out, "{}", text.join(" ")).unwrap();
         out.flush().unwrap();
         if sched::LEAKED.load(std::sync::atomic::Ordering::SeqCst) { std::process::exit(75); }
